@@ -25,6 +25,7 @@ func init() {
 			"(pending) getBlockFromAffinity hands a block back only if the affinity state is confirmed/legacy-empty or its own confirm write succeeded; a re-read affinity (queryAffinity) is returned as usable only under State == StateConfirmed; findOrClaimBlock only returns blocks vetted by getBlockFromAffinity; " +
 			"(empty) in releaseBlockAffinity every write is behind `!RequireEmpty || empty()`, behind the RequiredBlockSequenceNumber comparison, and behind `Affinity == nil || affinityMatches` (except the deletion of the caller's stale affinity); every block deletion in the package is guarded by empty() " +
 			"evaluated on the very pair that is deleted; every caller of releaseBlockAffinity passes RequireEmpty=true, its own bool parameter, or is the reviewed pool-wide release; reclaiming another host's block passes RequireEmpty=true and the sequence number read with the block; " +
+			"(bound) in releaseBlockAffinity each compare-and-swap write of the block (deleteBlock, updateBlock) carries the revision of a read R of the block, and on every path to the write each of the three guards holds in a form evaluated on R itself (empty() of the block built from R's pair, Affinity / affinityMatches on it, its SequenceNumber): the revision is what keeps the checks true at the write, so a re-read between check and CAS must repeat the checks (value provenance is flow-sensitive for the local block variable); " +
 			"(blockcas) the claim, re-confirm and release protocols all have the shape mark-affinity / CAS-the-block / finalise-affinity: on every path from the write that marks an affinity pending or pendingDeletion to the write that confirms it or the compare-and-delete that removes it, " +
 			"a CAS write of the block is attempted (Client.Create of a BlockKey pair, updateBlock, deleteBlock, or a helper that does so on all of its paths); a confirm with no mark in its own function (confirmAffinity) is checked from the entry of each caller. " +
 			"That block write is what makes a concurrent claimant/releaser that read the block earlier fail its own compare-and-swap.",
@@ -58,6 +59,10 @@ func init() {
 				Old: "if block.empty() && block.Affinity == nil {", New: "if block.Affinity == nil {", Expect: "C22.empty/delete-guard/ipamClient.releaseByHandle"},
 			{Name: "reclaim of another host's block without RequireEmpty", File: "libcalico-go/lib/ipam/ipam_block_reader_writer.go",
 				Old: "\t\t\t\tRequireEmpty: true,\n\t\t\t\t// Pass the sequence number", New: "\t\t\t\tRequireEmpty: false,\n\t\t\t\t// Pass the sequence number", Expect: "C22.empty/caller/blockReaderWriter.findUsableBlock"},
+			{Name: "release re-reads the block after marking the affinity and decides/CASes on the fresh copy", File: "libcalico-go/lib/ipam/ipam_block_reader_writer.go",
+				Old: "\tif b.empty() {\n\t\t// If the block is empty, we can delete it.", New: "\tobj, err = rw.queryBlock(ctx, blockCIDR, \"\")\n\tif err != nil {\n\t\treturn err\n\t}\n\tb = blockFromBackend(config, obj.Value.(*model.AllocationBlock))\n\tif b.empty() {\n\t\t// If the block is empty, we can delete it.", Expect: "C22.bound/require-empty/updateBlock"},
+			{Name: "release deletes the block by the revision of a fresh read instead of the checked one", File: "libcalico-go/lib/ipam/ipam_block_reader_writer.go",
+				Old: "\t\terr := rw.deleteBlock(ctx, obj)\n", New: "\t\tfresh, err := rw.queryBlock(ctx, blockCIDR, \"\")\n\t\tif err != nil {\n\t\t\treturn err\n\t\t}\n\t\terr = rw.deleteBlock(ctx, fresh)\n", Expect: "C22.bound/owner/deleteBlock"},
 			{Name: "re-confirming a non-confirmed affinity no longer rewrites the block", File: "libcalico-go/lib/ipam/ipam.go",
 				Old: "\t\tb, err = c.blockReaderWriter.updateBlock(ctx, b)\n\t\tif err != nil {\n\t\t\tlogCtx.WithError(err).Debug(\"Error writing block\")\n\t\t\treturn nil, err\n\t\t}\n", New: "", Expect: "C22.blockcas/confirm/ipamClient.getBlockFromAffinity"},
 			{Name: "release keeps an empty block and only drops the affinity", File: "libcalico-go/lib/ipam/ipam_block_reader_writer.go",
@@ -222,6 +227,7 @@ func runC22(c *Ctx) {
 	c.Rule("C22.twophase", "E-FLOW/E-GUARD/E-ORDER", "affinities are created pending; claimAffineBlock gets a pending affinity; StateConfirmed stored / confirmAffinity called only under block-create success or affinity match; lost race deletes the pending affinity", 9)
 	c.Rule("C22.pending", "E-GUARD", "an affinity is used as ownership only under State==confirmed (or legacy \"\") or after the function's own successful confirm write; findOrClaimBlock returns only vetted blocks", 4)
 	c.Rule("C22.empty", "E-GUARD/E-FLOW", "releaseBlockAffinity writes are behind RequireEmpty/empty(), the sequence-number comparison and the owner check; block deletes are guarded by empty() on the deleted pair; callers pass RequireEmpty correctly", 25)
+	c.Rule("C22.bound", "E-FLOW/E-GUARD", "in releaseBlockAffinity the three release guards (RequireEmpty/empty(), owner match, required sequence number) that protect a compare-and-swap write of the block were evaluated on the very read of the block whose revision that write carries: a re-read between the checks and the CAS must repeat the checks on the new copy", 6)
 	c.Rule("C22.blockcas", "E-ORDER", "between marking an affinity (pending / pendingDeletion write) and finalising it (confirm write / compare-and-delete of the affinity) every path attempts a CAS write of the block (Create of a BlockKey, updateBlock, deleteBlock); a confirm with no mark in the same function: every path from the function's entry (delegated to the call sites when the affinity is a parameter)", 5)
 	c22TwoPhase(c, m)
 	c22Pending(c, m)
@@ -535,6 +541,7 @@ func c22Pending(c *Ctx, m *c22Model) {
 func c22Empty(c *Ctx, m *c22Model) {
 	p := m.p
 	f := m.fnRelease
+	c22Bound(c, m)
 	isEmptyCall := func(cs CallSite) bool { return methodNamed(cs.Callee, "allocationBlock", "empty") }
 	reqEmpty := anyOf(
 		func(cond ssa.Value, pol bool) bool { return !pol && fieldVar(cond) == m.reqEmptyField },
@@ -694,6 +701,251 @@ func c22Empty(c *Ctx, m *c22Model) {
 	}
 	if nc == 0 {
 		c.Lost("no caller of releaseBlockAffinity")
+	}
+}
+
+// ---------------------------------------------------------------- C22.bound --
+
+// c22DerivesFrom: v is computed from the result of one of the calls in reads — directly,
+// or through (at most three levels of) calls that were handed such a value
+// (blockFromBackend(cfg, pair.Value.(*AllocationBlock)), affinityMatches(cfg, b.AllocationBlock)).
+// A datastore read that is not in reads is never crossed: what it returns is a different
+// revision, whatever was passed to it.
+func (m *c22Model) c22DerivesFrom(v ssa.Value, reads map[ssa.Instruction]bool, depth int) bool {
+	for k := range c22OriginCalls(v) {
+		if reads[k] {
+			return true
+		}
+		call, ok := k.(*ssa.Call)
+		if !ok || depth >= 3 || m.c22IsRead(call) {
+			continue
+		}
+		for _, a := range call.Common().Args {
+			if m.c22DerivesFrom(a, reads, depth+1) {
+				return true
+			}
+		}
+	}
+	return false
+}
+
+// c22OriginCalls: like c19Model.originCalls, but flow-sensitive for local struct variables:
+// a load of (a field of) a local variable leads only to the stores that reach the load
+// (`b = f(read1) ... check(b) ... b = f(read2) ... use(b)`: the check sees read1 only).
+func c22OriginCalls(v ssa.Value) map[ssa.Instruction]bool {
+	out := map[ssa.Instruction]bool{}
+	thr := func(x ssa.Value) []ssa.Value {
+		switch y := x.(type) {
+		case *ssa.IndexAddr:
+			return []ssa.Value{y.X}
+		case *ssa.UnOp:
+			if al, ok := y.X.(*ssa.Alloc); ok && y.Op == token.MUL {
+				if vals := c22ReachingStores(al, y, -1); len(vals) > 0 {
+					return vals
+				}
+			}
+		case *ssa.FieldAddr:
+			if al, ok := y.X.(*ssa.Alloc); ok {
+				if vals := c22ReachingStores(al, y, y.Field); len(vals) > 0 {
+					return vals
+				}
+			}
+			return []ssa.Value{y.X}
+		case *ssa.Field:
+			return []ssa.Value{y.X}
+		case *ssa.Lookup:
+			return []ssa.Value{y.X}
+		}
+		return nil
+	}
+	for _, o := range origins(v, thr) {
+		if c, ok := o.V.(*ssa.Call); ok {
+			out[c] = true
+		}
+	}
+	return out
+}
+
+// c22ReachingStores: the values of the stores into local variable al (whole-variable stores, and
+// stores into field `field` when field >= 0) that reach instruction `at` without being
+// overwritten by another such store on the way.
+func c22ReachingStores(al *ssa.Alloc, at ssa.Instruction, field int) []ssa.Value {
+	def := func(in ssa.Instruction) (ssa.Value, bool) {
+		st, ok := in.(*ssa.Store)
+		if !ok {
+			return nil, false
+		}
+		if st.Addr == al {
+			return st.Val, true
+		}
+		if fa, ok := st.Addr.(*ssa.FieldAddr); ok && field >= 0 && fa.X == al && fa.Field == field {
+			return st.Val, true
+		}
+		return nil, false
+	}
+	var vals []ssa.Value
+	seen := map[*ssa.BasicBlock]bool{}
+	var scan func(b *ssa.BasicBlock, from int)
+	scan = func(b *ssa.BasicBlock, from int) {
+		for i := from; i >= 0; i-- {
+			if v, ok := def(b.Instrs[i]); ok {
+				vals = append(vals, v)
+				return
+			}
+		}
+		for _, pb := range b.Preds {
+			if !seen[pb] {
+				seen[pb] = true
+				scan(pb, len(pb.Instrs)-1)
+			}
+		}
+	}
+	blk := at.Block()
+	idx := -1
+	for i, in := range blk.Instrs {
+		if in == at {
+			idx = i
+		}
+	}
+	scan(blk, idx-1)
+	return vals
+}
+
+// c22IsRead: a call that returns a *KVPair / *KVPairList fetched from the datastore (Client.Get/List or
+// an in-package function that returns what such a call returned).
+func (m *c22Model) c22IsRead(call *ssa.Call) bool {
+	if c19ClientCall(call.Common(), "Get", "List") != "" {
+		return true
+	}
+	res := call.Common().Signature().Results()
+	for i := 0; i < res.Len(); i++ {
+		if m.carrying(res.At(i).Type()) {
+			return true
+		}
+	}
+	return false
+}
+
+// c22Bound: the revision handed to the block CAS in releaseBlockAffinity is what makes the
+// emptiness, ownership and sequence-number checks still true at the moment of the write
+// (any concurrent change of the block since that read fails the CAS).  That only works if
+// the checks looked at the same read.  For each block write (a write whose pair does not
+// come from the affinity read), each guard must hold in its *bound* form: the block value
+// the guard inspected derives from the read call(s) the written pair originates from.
+func c22Bound(c *Ctx, m *c22Model) {
+	p := m.p
+	f := m.fnRelease
+	n := 0
+	for _, w := range m.writes {
+		if w.ci.Parent() != f {
+			continue
+		}
+		arg := c19PairArg(m.c19Model, w)
+		if arg == nil {
+			continue
+		}
+		// follow the pair back through the package's own write wrappers (aff = updateAffinity(aff)) to reads
+		reads := map[ssa.Instruction]bool{}
+		isAff := false
+		var walk func(v ssa.Value, depth int)
+		walk = func(v ssa.Value, depth int) {
+			for k := range m.originCalls(v) {
+				call, _ := k.(*ssa.Call)
+				if call == nil {
+					continue
+				}
+				if calleeFn(call.Common()) == m.fnQueryAff {
+					isAff = true
+				}
+				if sf := calleeFn(call.Common()); sf != nil && m.wrappers[sf] != "" && depth < 4 {
+					for _, a := range call.Common().Args {
+						if m.isPairPtr(a.Type()) {
+							walk(a, depth+1)
+						}
+					}
+					continue
+				}
+				reads[k] = true
+			}
+		}
+		walk(arg, 0)
+		if isAff {
+			continue // the affinity row: its own revision chain, not the block's
+		}
+		site := p.Pos(w.ci.Pos())
+		if len(reads) == 0 {
+			c.Undecided("C22.bound/origin/"+w.name, site, "the pair written by %s in releaseBlockAffinity does not originate from a read call", w.name)
+			continue
+		}
+		from := func(v ssa.Value) bool { return m.c22DerivesFrom(v, reads, 0) }
+		// an argument that is the address of a local variable (pointer receiver / &b): what the variable holds at the call
+		fromAt := func(v ssa.Value, at ssa.Instruction) bool {
+			if al, ok := v.(*ssa.Alloc); ok {
+				for _, sv := range c22ReachingStores(al, at, -1) {
+					if from(sv) {
+						return true
+					}
+				}
+				return false
+			}
+			return from(v)
+		}
+		reqEmpty := anyOf(
+			func(cond ssa.Value, pol bool) bool { return !pol && fieldVar(cond) == m.reqEmptyField },
+			callCond(true, func(cs CallSite) bool {
+				return methodNamed(cs.Callee, "allocationBlock", "empty") && fromAt(cs.Args()[0], cs.Instr)
+			}),
+		)
+		seq := anyOf(
+			eqCond(true, func(v ssa.Value) bool { return fieldVar(v) == m.rsnField }, isNilConst),
+			eqCond(true, func(v ssa.Value) bool { return fieldVar(v) == m.rsnField && !isNilConst(v) }, func(v ssa.Value) bool { return fieldVar(v) == m.seqField && from(v) }),
+		)
+		isAffStr := func(v ssa.Value) bool {
+			b, ok := v.Type().Underlying().(*types.Basic)
+			return ok && b.Kind() == types.String && fieldVar(v) == m.affField && from(v)
+		}
+		owner := anyOf(
+			eqCond(true, func(v ssa.Value) bool {
+				_, isPtr := v.Type().Underlying().(*types.Pointer)
+				return isPtr && fieldVar(v) == m.affField && from(v)
+			}, isNilConst),
+			eqCond(true, isAffStr, func(v ssa.Value) bool { return !isNilConst(v) }),
+			callCond(true, func(cs CallSite) bool {
+				if cs.Callee == nil || cs.Callee.Name() != "affinityMatches" || cs.Callee.Pkg() == nil || !strings.HasSuffix(cs.Callee.Pkg().Path(), c19Pkg) {
+					return false
+				}
+				for _, a := range cs.Args() {
+					if fromAt(a, cs.Instr) {
+						return true
+					}
+				}
+				return false
+			}),
+		)
+		var rs []string
+		for k := range reads {
+			rs = append(rs, p.Pos(k.Pos()))
+		}
+		sort.Strings(rs)
+		rd := strings.Join(rs, ", ")
+		for _, g := range []struct {
+			name string
+			pred EdgePred
+			ok   string
+			bad  string
+		}{
+			{"require-empty", reqEmpty, "`!opts.RequireEmpty || b.empty()`", "a block that received an allocation after the emptiness check is released although the caller required it to be empty"},
+			{"owner", owner, "`b.Affinity == nil || affinityMatches(caller, block)`", "a block that was reclaimed and confirmed by another host after the owner check is deleted / stripped of its affinity by the stale releaser"},
+			{"sequence", seq, "`RequiredBlockSequenceNumber == nil || *RequiredBlockSequenceNumber == b.SequenceNumber`", "a block modified since the caller inspected it (sequence number moved on) is released"},
+		} {
+			n++
+			c.Check(guardedCut(w.ci, g.pred), "C22.bound/"+g.name+"/"+w.name, site,
+				fmt.Sprintf("%s guarding %s was evaluated on the block read at %s, the read whose revision the write carries", g.ok, w.name, rd),
+				fmt.Sprintf("in releaseBlockAffinity %s writes the block pair read at %s, but on some path the guard %s was not evaluated on that read (the block was read again between the check and the compare-and-swap, or the CAS uses another copy): the revision no longer ties the check to the write — %s", w.name, rd, g.ok, g.bad))
+		}
+	}
+	if n == 0 {
+		c.Lost("releaseBlockAffinity: no compare-and-swap write of the block found")
 	}
 }
 
